@@ -119,7 +119,9 @@ fn run_case(dir: &Path, c: &Case) -> Result<Vec<&'static str>, (String, String)>
             return Err(("harness".into(), "no DATA 1".into()));
         }
         let t0 = Instant::now();
-        let first_limit = Duration::from_millis(t * 1000 + 3500);
+        // with the server's default timeout (no option) only "it does retransmit" is demanded - the value of the default is
+        // not part of any property
+        let first_limit = if c.timeout.is_none() { Duration::from_secs(20) } else { Duration::from_millis(t * 1000 + 3500) };
         let mut first_at = None;
         while t0.elapsed() < first_limit {
             if let Some((b, _)) = cl.recv(Duration::from_millis(100)) {
@@ -133,7 +135,7 @@ fn run_case(dir: &Path, c: &Case) -> Result<Vec<&'static str>, (String, String)>
         match first_at {
             None => return Err(("no-retransmission".into(), format!("DATA 1 was not retransmitted within {:?} of silence (timeout {} s{}): the transfer neither retries nor can it give up", first_limit, t, if c.timeout.is_none() { ", server default" } else { "" }))),
             Some(el) => {
-                if el + Duration::from_millis(150) < Duration::from_secs(t) {
+                if c.timeout.is_some() && el + Duration::from_millis(150) < Duration::from_secs(t) {
                     return Err(("early-retransmission".into(), format!("DATA 1 retransmitted after {:?}, timeout {} s", el, t)));
                 }
             }
